@@ -90,7 +90,7 @@ META = {
         "engine": "leaderx+e2ex", "technique": "concurrent property testing with schedule perturbation + model-based state machine on the ack tracker + pipelined real client against a real standalone server",
         "design_ref": "DESIGN.md 4.3, 5 C08",
         "level_text": "Generated writer populations against a real leader with injected delays at the allocation/append boundary, "
-                      "and tens of thousands of tracker histories against the reference commit rule.",
+                      "and tens of thousands of tracker histories (followers may acknowledge what the leader's log has synced but not yet announced to the tracker) against the reference commit rule.",
         "level_note": "Real goroutines: schedules are perturbed, not enumerated. One listed finding (RF=1 tracker initial commit offset).",
     },
     "C14": {
